@@ -77,6 +77,43 @@ def ob_assemble_index(kind, canary=False):
     return Verdict(DISCHARGED, backend="extracted function on a recording receiver", sub=4)
 
 
+def ob_form_after_motion(et):
+    """the SAME form object integrated over the SAME field before and after the mesh is moved through the public API (rotation, stretch through the coordinate setter):
+    both integrations equal the built-in operator on the geometry current at that time (nothing of the first integration may survive in the form or the field)"""
+    from EasyFEA.FEM import Field, BiLinearForm
+    from EasyFEA.FEM import Operators
+    from EasyFEA.FEM._utils import MatrixType
+    mesh = patches.two_element_mesh(et)
+    grp = mesh.groupElem
+    dim = grp.dim
+    fld = Field(grp, 1, MatrixType.rigi) if "matrixType" in Field.__init__.__code__.co_varnames else Field(grp, 1)
+    form = BiLinearForm(lambda u, v: u.grad.dot(v.grad))
+    n = 0
+
+    def compare(tag):
+        got = np.asarray(form.Integrate_e(field=fld))
+        mt = getattr(fld, "matrixType", MatrixType.rigi)
+        want = np.asarray(Operators.Bilinear.GradUGradV(mesh.groupElem, 1.0, mt))
+        e = float(np.abs(got - want).max() / np.abs(want).max())
+        if e > 1e-10:
+            raise Refuted(f"{et}: the diffusion form integrated {tag} differs from GradUGradV on the current geometry by {e:.3e} (relative): data of an earlier integration is reused",
+                          cex=dict(elemType=et, history=tag), signature=f"form:motion:{tag.split()[0]}", replay=dict(confirmed=True, rel_err=e))
+    compare("first")
+    n += 1
+    if dim == 2:
+        mesh.Rotate(30.0, (0.1, 0.2, 0.0), (0, 0, 1))
+    else:
+        mesh.Rotate(30.0, (0.1, 0.2, 0.0), (1, 2, 0.5))
+    compare("after Rotate")
+    n += 1
+    c = np.asarray(mesh.coord).copy()
+    c[:, 0] = 1.6 * c[:, 0] + 0.3 * c[:, 1]
+    mesh.coord = c
+    compare("after a stretch through mesh.coord")
+    n += 1
+    return Verdict(DISCHARGED, backend="native form vs built-in operator", sub=n)
+
+
 def ob_assemble_scatter(kind):
     """X: Form.Assemble == dense scatter-add of Integrate_e's element arrays, on non-symmetric forms"""
     r = _replay_assemble(kind)
@@ -690,6 +727,9 @@ def build(tier, seed):
     for kind in ("bilinear", "linear"):
         obs.append(Ob(f"C13.assemble.scatter.{kind}", ob_assemble_scatter, (kind,), "X", (f"{FP}::{'BiLinearForm' if kind == 'bilinear' else 'LinearForm'}.Assemble",),
                       bound="TRI3 scalar convection form and QUAD4 vector shear form on two-element patches", clause="Assemble(field) == sum_e scatter(Integrate_e) with K_e[e,i,j] at (a[e,i], a[e,j])"))
+    for et in ("TRI3", "QUAD4", "TRI6", "TETRA4"):
+        obs.append(Ob(f"C13.form.motion.{et}", ob_form_after_motion, (et,), "X", (f"{FP}::BiLinearForm.Integrate_e", "EasyFEA/FEM/_field.py::Field.copy"), bound="two-element patch, one rotation, one stretch",
+                      clause="the same form and field integrated again after the mesh moved == the built-in operator on the new geometry"))
     obs.append(Ob("canary.assemble.index", ob_assemble_index, ("bilinear", True), "P", expect=REFUTED))
     functions = {q: extract.get(FP, q).describe() for q in ("BiLinearForm.Integrate_e", "BiLinearForm.Assemble", "LinearForm.Integrate_e", "LinearForm.Assemble")}
     functions["Field.__call__"] = extract.get(FD, "Field.__call__").describe()
